@@ -97,6 +97,9 @@ def gen_case(rng: random.Random, tier: str, bias: str = ''):
     case['exc_flavour'] = excflavours.of_seed(case['seed'])
     if case['seed'] % 13 == 0:
         case['stop_after'] = 0       # the iterator is never advanced
+    case['falsy_src'] = case['seed'] % 5 == 0
+    # (parmap) two iterations of the same stream object alive at once, see run_case
+    case['overlap'] = kind == 'parmap' and case['seed'] % 7 == 0
     return case
 
 
@@ -195,6 +198,11 @@ def run_case(case):
                 raise SrcErr('src')
             raise StopRequested()
 
+    if case.get('falsy_src'):
+        # a source whose truth value / length says nothing about what iterating it yields (a live feed reporting the
+        # number of currently buffered items: 0): it is an iterable like any other
+        Src.__len__ = lambda self: 0
+
     def work(x):
         i = none_at if x is None else x - BASE
         state['calls'][i] = state['calls'].get(i, 0) + 1
@@ -250,6 +258,34 @@ def run_case(case):
                     return_exceptions=case['rexc'], preprocessor=pre if case['pre'] else None)
                 box = [iter(stream)]
                 end = consume(box, out)
+                if case.get('overlap'):
+                    # Two iterations of ONE parmap stream object over a re-iterable source, alive at the same time: the
+                    # first is advanced by one element, the second is consumed completely, then the first is finished.
+                    # Each is a stream of its own: one output per input, in order (judged directly; not replayed).
+                    state['second'] = True
+                    m = 2 * conc + 3
+                    src2 = [BASE + n + k for k in range(m)]
+                    def work3(x):
+                        for _ in range(3):
+                            detsched.yield_here('work3')
+                        return x
+                    st2 = Stream(src2).parmap(work3, executor='thread', concurrency=conc)
+                    a, b = [], []
+                    try:
+                        it1 = iter(st2)
+                        a = [next(it1)]
+                        b = list(st2)
+                        a += list(it1)
+                    except detsched.Abort:
+                        raise
+                    except Exception as e2:  # noqa: BLE001
+                        state['overlap_problem'] = (f'two overlapping iterations of one parmap stream over {m} elements: {e2!r} after '
+                                                    f'{len(a)} outputs of the first and {len(b)} of the second')
+                    if 'overlap_problem' not in state and (a != src2 or b != src2):
+                        state['overlap_problem'] = (f'two overlapping iterations of one parmap stream over {m} elements: the first '
+                                                    f'delivered {len(a)} outputs ({"in order" if a == src2[:len(a)] else "not the inputs in order"}), '
+                                                    f'the second {len(b)}')
+                    state['second'] = False
                 if case.get('again') and end[0] != 'end':
                     # the iteration ended early (close / failure): consume a second stream right away;
                     # calls left running by the first one would add to the concurrency (C08)
@@ -365,6 +401,8 @@ def run_case(case):
     for (_ix, iy, kind) in out:
         if kind in ('ok', 'work', 'retexc') and state['calls'].get(iy, 0) != 1:
             mon.append(dict(prop='C01', rule='exactly-once', detail=f'delivered element {iy} invoked {state["calls"].get(iy, 0)} times'))
+    if state.get('overlap_problem'):
+        mon.append(dict(prop='C01', rule='overlap', detail=state['overlap_problem']))
     # C05: ending
     if tuple(end) != tuple(exp_end):
         mon.append(dict(prop='C05', rule='ending', detail=f'got {end} expected {exp_end}'))
